@@ -87,7 +87,7 @@ func VerifC16_Policy() {
 			verifrt.Assert(r2, "accepted list survives a restart")
 		}
 		servers[url1] = &server{up: true, crl: subject}
-		ierr = w.repo.updateCRL("h-h-" + url1)
+		ierr = w.repo.updateCRL(idOfCDP(url1))
 	}
 	r1, e1 := w.revoked(s1)
 	if sig == config.SignatureValidationModeVerify && fails {
